@@ -58,6 +58,8 @@ StepClauses(n) ==
     \cup Fail("C20.Armed",       Armed(n)')
     \cup Fail("C20.Recurs",      RecursStep(n))
     \cup Fail("C20.Once",        OnceStep(n))
+    \* C04 on the timer path: a node without pending or executing work is not in the work queue (not even once)
+    \cup Fail("C04.IdleEmpty",   (todo'[n] = {} /\ exec'[n] = {}) => Rec(tid, l + 1).st.nque[n] = 0)
 
 (* is the recorded step a step of the implementation-shaped model? *)
 ModelStep(r) ==
